@@ -91,7 +91,7 @@ def per_listener(script, out):
 
 def check(tier, seed):
     rng = random.Random(seed * 97 + 9)
-    n = 600 if tier == "quick" else 6000
+    n = 600 if tier == "quick" else 15000
     prof = apigen.profile(n_defs=(5, 12), n_listen=(2, 5), samples=0.4, max_defer=1, unlisten=0.0, obs=0.0,
                           weights=dict(defer=1.5, switchs=1.5, switchc=0.7, lift2=2, accum=1.5, hold=3, merge=5, once=1, sloop=0.5, cloop=0.5, router=0.5))
     base = [apigen.generate(rng, prof) for _ in range(n)]
